@@ -48,6 +48,11 @@ def try_merge(I, st, env, results, ignore_env=()):
     env_changes = set()
     events = []
     for (s2, e2, oc) in results:
+        for oid, items in s2.maps.items():
+            if oid.startswith('const:') and oid not in st.maps:
+                st.maps[oid] = items            # read-only module table, built on first use
+                st.cls[oid] = 'dict'
+    for (s2, e2, oc) in results:
         if oc is not None:
             return None
         if s2.n != st.n or s2.flags != st.flags or s2.maps != st.maps or s2.seqs != st.seqs \
